@@ -449,18 +449,18 @@ def stdlib_sources(names):
 
 def program_groups(ctx):
     groups = []
-    groups.append({"name": "regression", "kind": "corpus", "sources": REGRESSION, "ops": ["visit", "fold", "opt", "walk"],
+    groups.append({"name": "regression", "kind": "corpus", "sources": REGRESSION, "ops": ["visit", "vhook", "fold", "opt", "walk"],
                    "must_parse": True,
                    "note": "shapes of the repaired findings: children of keyword/arguments/withitem/match_case/comprehension, "
                            "store- and del-context constant tuples"})
-    groups.append({"name": "directed", "kind": "corpus", "sources": DIRECTED, "ops": ["fold", "visit", "walk", "ranges", "opt"],
+    groups.append({"name": "directed", "kind": "corpus", "sources": DIRECTED, "ops": ["fold", "visit", "vhook", "walk", "ranges", "opt"],
                    "must_parse": True,
                    "note": "hand-written corpus: every node kind, optional fields present/absent, lists of length 0/1/many"})
     import shapes
     sh = shapes.all_shapes()
     # batches of 40 shape statements per program keep the request count small; PEP 695 forms included (this parser accepts them)
     batched = ["".join(sh[i:i + 40]) for i in range(0, len(sh), 40)]
-    groups.append({"name": "directed-shapes", "kind": "corpus", "sources": batched, "ops": ["fold", "visit", "walk", "ranges", "opt"],
+    groups.append({"name": "directed-shapes", "kind": "corpus", "sources": batched, "ops": ["fold", "visit", "vhook", "walk", "ranges", "opt"],
                    "note": "%d directed texts of tools/shapes.py in %d programs: every parameter-list section combination, with-items of "
                            "every expression kind, rare productions" % (len(sh), len(batched))})
     groups.append({"name": "mode-expression", "kind": "corpus", "mode": ":x", "ops": ["fold", "ranges", "opt"], "must_parse": True,
@@ -474,23 +474,23 @@ def program_groups(ctx):
     r = ctx.rng("clean")
     g = RandProg(r, clean=True)
     groups.append({"name": "random-clean", "kind": "random", "sources": [g.program(r.choice([2, 3, 3, 4])) for _ in range(n_clean)],
-                   "ops": ["visit", "fold"],
+                   "ops": ["visit", "vhook", "fold"],
                    "note": "random programs in a plain dialect (no keyword arguments / with / match / comprehensions / "
                            "parameter annotations and defaults)"})
     r = ctx.rng("full")
     g = RandProg(r, clean=False)
     groups.append({"name": "random-full", "kind": "random", "sources": [g.program(r.choice([2, 3, 3, 4])) for _ in range(n_full)],
-                   "ops": ["fold", "visit", "opt", "ranges"],
+                   "ops": ["fold", "visit", "vhook", "opt", "ranges"],
                    "note": "random programs over the whole statement/expression/pattern grammar, store-context constant tuples included"})
     if not ctx.quick:
         r = ctx.rng("allranges")
         g = RandProg(r, clean=False)
         groups.append({"name": "allranges", "kind": "corpus", "features": "all-ranges", "coverage": False,
                        "sources": DIRECTED + [g.program(r.choice([2, 3, 4])) for _ in range(1500)] + stdlib_sources(STDLIB_QUICK),
-                       "ops": ["fold", "visit", "ranges", "opt"],
+                       "ops": ["fold", "visit", "vhook", "ranges", "opt"],
                        "note": "harness built with feature all-nodes-with-ranges: optional ranges present, will_map_user_cfg / "
                                "map_user_cfg call the user callbacks"})
     std = STDLIB_QUICK if ctx.quick else STDLIB_QUICK + STDLIB_THOROUGH
-    groups.append({"name": "stdlib", "kind": "corpus", "sources": stdlib_sources(std), "ops": ["fold", "visit", "walk", "ranges", "opt"],
+    groups.append({"name": "stdlib", "kind": "corpus", "sources": stdlib_sources(std), "ops": ["fold", "visit", "vhook", "walk", "ranges", "opt"],
                    "note": "CPython 3.11 standard library files", "coverage": True})
     return groups
